@@ -7,7 +7,10 @@ open Verdict
 
 let env_of_s s = match lst s with
   | [node; agents; clas] ->
-    { rn_node = D_bundle.s_eid node; rn_agents = List.map D_bundle.s_eid (lst agents); rn_clas = List.map D_bundle.s_eid (lst clas) }
+    (* a listener ID comes as (cla-type eid) - the type only matters for the registration, the node's
+       endpoints are the union over all types - or, in old corpus lines, as the bare eid *)
+    let cla_eid c = match c with List [_; e] -> D_bundle.s_eid e | _ -> D_bundle.s_eid c in
+    { rn_node = D_bundle.s_eid node; rn_agents = List.map D_bundle.s_eid (lst agents); rn_clas = List.map cla_eid (lst clas) }
   | _ -> raise (Bad "env")
 
 let facts_of_s s = match lst s with
@@ -163,7 +166,17 @@ let step = function
         [Ok_ (uniq (List.map ev_tag evs) @ [Printf.sprintf "reports=%d" (List.length obs); "case-" ^ D_bundle.str_of_bytes (s_bytes tag)]
               @ frag_tags obs
               @ (if List.length obs = 0 && has b.b_pri.p_flags f_ADMIN then ["silent-admin"] else [])
-              @ (if List.length obs = 0 && rp_has_endpoint env b.b_pri.p_rpt then ["silent-report-to-local"] else []))]
+              @ (if List.length obs = 0 && rp_has_endpoint env b.b_pri.p_rpt then ["silent-report-to-local"] else [])
+            @ [Printf.sprintf "listener-ids=%d" (min 4 (List.length env.rn_clas))]
+            @ (let rpt = b.b_pri.p_rpt in
+               (* report-to is an endpoint of the node only through the n-th registered listener ID *)
+               if rp_has_endpoint env rpt && not (eid_same_node env.rn_node rpt) && not (rp_has_agent env rpt) then begin
+                 let rec first i = function
+                   | [] -> -1 | c :: l -> if rp_authority c = rp_authority rpt then i else first (i + 1) l in
+                 let i = first 0 env.rn_clas in
+                 [Printf.sprintf "report-to-listener-id-%s" (if i = 0 then "first" else if i = 1 then "second" else "later")]
+               end else if rp_has_agent env rpt && not (eid_same_node env.rn_node rpt) then ["report-to-agent-endpoint-outside-node-name"]
+               else []))]
       else !r
     end
   | _ -> raise (Bad "step case")
